@@ -231,13 +231,15 @@ class Env:
         }
         self.coarg = {1: Coargument(self.dual[SV], 1), 2: Coargument(self.dual[SW], 1)}
         self.arg = {1: ufl.Argument(V, 1), 2: ufl.Argument(W, 1), 3: ufl.Argument(V, 0)}
+        # the number zero as an operand of + and - (sum([a, b]) starts from 0; r = 0; r -= B)
+        self.num = {1: 0, 2: 0.0, 3: ufl.classes.Zero()}
         self.weights = [_q(w) for w in table["weights"]]
         self.sumweights = [_q(w) for w in table.get("sumweights", [])]  # (absent in replay files recorded earlier)
         self.zeros = table["zeros"]
         self.leaves = [(k, i) for _, k, i in table["leaves"]]
 
     def leaf(self, k, i):
-        return {"coef": self.coef, "cof": self.coef, "mat": self.mat, "form": self.form, "coarg": self.coarg, "arg": self.arg}[k][i]
+        return {"coef": self.coef, "cof": self.coef, "mat": self.mat, "form": self.form, "coarg": self.coarg, "arg": self.arg, "num": self.num}[k][i]
 
     def argument(self, n, sp, du):
         """Argument number n on space sp (a Coargument when du)."""
@@ -587,6 +589,17 @@ def apply_op(E, op, objs, variant):
         return FormSum((x, w1), (y, w2), (t, w3)) if variant == "ctor" else w1 * x + w2 * y + w3 * t
     if code == 10:
         return ufl.replace(x, {E.coef[q]: E.coef[dr]})
+    if code in (1, 2) and not (isinstance(x, BaseForm) and isinstance(y, BaseForm)):
+        # one operand is the number zero (a "num" leaf): no FormSum constructor notation; the second
+        # variant is the accumulation idiom  r = 0; r += B / r -= B  (in-place operators)
+        if variant == "ctor":
+            r = x
+            if code == 1:
+                r += y
+            else:
+                r -= y
+            return r
+        return x + y if code == 1 else x - y
     if code == 1:
         return FormSum((x, 1), (y, 1)) if ctor else x + y
     if code == 2:
@@ -799,6 +812,7 @@ def replay_program(E, asm, line, variant, status, counters, corrupt=None, only=N
 
     ops, preds = line
     objs = [E.leaf(k, i) for k, i in E.leaves]
+    nl = len(objs)
     desc = [type(o).__name__ for o in objs]  # fingerprints name the real classes ufl dispatches on
     keys = [f"{k}{i}" for k, i in E.leaves]
     ders = [False] * len(objs)
@@ -812,7 +826,8 @@ def replay_program(E, asm, line, variant, status, counters, corrupt=None, only=N
         if known in ("bad", "skip"):
             counters["programs_on_failing_subprogram"] = counters.get("programs_on_failing_subprogram", 0) + 1
             return checks, STOPPED
-        if pred[0] == "bf" and any(not isinstance(objs[i - 1], BaseForm) for i in (refs(op) if code in (1, 2, 9) else (a,)) if i):
+        if pred[0] == "bf" and any(not isinstance(objs[i - 1], BaseForm) and not (code in (1, 2) and i <= nl and E.leaves[i - 1][0] == "num")
+                                   for i in (refs(op) if code in (1, 2, 9) else (a,)) if i):
             # ufl represents some results outside the BaseForm classes (an element of V** is a
             # Coefficient: D_c action(c, f) = f; the adjoint of a Coargument is an Argument):
             # the BaseForm operators do not apply to them
@@ -883,7 +898,8 @@ def describe(E, ops, k):
              ("mat", 1): "M(V,V)", ("mat", 2): "M(V,W)", ("mat", 3): "M(W,V)", ("mat", 4): "M(V,V*)", ("mat", 5): "M(V,W*)", ("mat", 6): "M(W,V*)",
              ("form", 1): "a_VV", ("form", 2): "a_VW", ("form", 3): "a_WV", ("form", 4): "af_VV", ("form", 5): "L_V", ("form", 6): "L_W",
              ("form", 7): "Lf_V", ("form", 8): "Lf_W", ("form", 9): "Lq_V", ("form", 10): "J_q", ("form", 11): "J_fg",
-             ("coarg", 1): "Coargument(V*,1)", ("coarg", 2): "Coargument(W*,1)", ("arg", 1): "Argument(V,1)", ("arg", 2): "Argument(W,1)", ("arg", 3): "Argument(V,0)"}
+             ("coarg", 1): "Coargument(V*,1)", ("coarg", 2): "Coargument(W*,1)", ("arg", 1): "Argument(V,1)", ("arg", 2): "Argument(W,1)", ("arg", 3): "Argument(V,0)",
+             ("num", 1): "0", ("num", 2): "0.0", ("num", 3): "Zero()"}
 
     def r(i):
         if i <= nl:
